@@ -102,6 +102,14 @@ class C17(Prop):
             lines.append(case("vec", fg, bg, list(b"old\x1b["), list(b"new"), []))
             lines.append(case("file", fg, bg, list(b"old"), list(b"new"), []))
         yield "pairs-x-data-accept-all(vec,file,box)", lines
+        # data lengths around 1 KiB on every sink (File, Vec, boxed): nothing may depend on a buffer size
+        lines = []
+        for n_ in list(range(1000, 1031)) + [4095, 4096, 4097, 8192, 65536]:
+            d = [0x61 + (i % 26) for i in range(n_)]
+            for fg, bg in [(rng.choice(PAIRS)) for _ in range(3)] + [("9", "12"), ("-", "15"), ("7", "-")]:
+                for sink in ("file", "vec", "box"):
+                    lines.append(case(sink, fg, bg, [], d, []))
+        yield "kib-sized-data", lines
 
         # 2. every pair x every accepted prefix of the data (codes accepted whole)
         lines = []
